@@ -110,7 +110,7 @@ class BetaMessage(AbstractMessage):
             alpha: Union[float, np.ndarray],
             beta: Union[float, np.ndarray]
     ) -> np.ndarray:
-        return np.array([alpha - 1, beta - 1])
+        return np.array(np.broadcast_arrays(alpha - 1, beta - 1))
 
     @staticmethod
     def invert_natural_parameters(
